@@ -38,7 +38,7 @@ PathOf == [w \in {"vault", "mal", "run"} |-> w]
 VARIABLES bal, balV, frames, code, toks, caps, tx, osend, ospent, ntok, ntx, nops, grants, pre, preV, done
 vars == <<bal, balV, frames, code, toks, caps, tx, osend, ospent, ntok, ntx, nops, grants, pre, preV, done>>
 
-NoTx == [signer |-> "none", fee |-> 0, sends |-> 0, sendsV |-> 0, maxdep |-> 0, run |-> FALSE, spends |-> 0, deleg |-> 0, issues |-> 0, storV |-> 0, storM |-> 0]
+NoTx == [signer |-> "none", fee |-> 0, sends |-> 0, sendsV |-> 0, maxdep |-> 0, locked |-> 0, run |-> FALSE, spends |-> 0, deleg |-> 0, issues |-> 0, storV |-> 0, storM |-> 0]
 
 Init ==
   /\ bal = [a \in Addrs |-> CASE a \in {"u1", "att", "vault"} -> 3 [] a = "u2" -> 2 [] a = "vdep" -> 1 [] OTHER -> 0]
